@@ -242,13 +242,27 @@ MUTABLE_CTORS = {'dict', 'list', 'set', 'deque', 'collections.deque', 'defaultdi
                  'collections.Counter', 'OrderedDict', 'collections.OrderedDict'}
 
 
-@rule('SUPPORT.STATE-PER-INSTANCE', ['C03', 'C01', 'C04', 'C05', 'C11', 'C17'])
+_CLASS_STATE_SCOPES = [
+    ('lab', ['C03', 'C01', 'C04', 'C05', 'C11', 'C17', 'C02', 'C10']),
+    ('runners', ['C03', 'C01', 'C04', 'C05', 'C11', 'C17', 'C02', 'C10', 'C16', 'C19']),
+    ('diagram', ['C20']),
+    ('cache', ['C06', 'C08', 'C09']),
+    ('storage', ['C06', 'C08', 'C18']),
+    ('serialization', ['C07', 'C09']),
+    ('utils', ['C19', 'C03', 'C17']),
+    ('monitor', ['C10', 'C11']),
+]
+
+
+@rule('SUPPORT.STATE-PER-INSTANCE', ['C03', 'C01', 'C04', 'C05', 'C11', 'C17', 'C02', 'C10', 'C16', 'C19', 'C20', 'C06', 'C08', 'C09', 'C18', 'C07'])
 def state_per_instance(ctx: Ctx):
     """Scheduler / runner / executor bookkeeping is per instance: no class-level mutable container in the classes
     of lab.py and runners/ (a class attribute is shared by every run in the process)."""
     n = 0
     for c in ctx.P.classes.values():
-        if not (c.module.name.endswith('.lab') or '.runners' in c.module.name):
+        mod = c.module.name.split('.', 1)[-1]
+        props = next((ps for pre, ps in _CLASS_STATE_SCOPES if mod.startswith(pre)), [])
+        if ctx.pid is not None and ctx.pid not in props:
             continue
         decos = [dotted(d.func if isinstance(d, ast.Call) else d) or '' for d in c.node.decorator_list]
         for name, v in c.consts.items():
@@ -260,8 +274,8 @@ def state_per_instance(ctx: Ctx):
             yield ctx.ob('SUPPORT.STATE-PER-INSTANCE', False, None, None, f'{c.name}.{name} is a class-level mutable container',
                          f'{c.name}.{name} = {src(v)[:40]} is shared by all instances: work queued or recorded by one run_tasks call leaks into the next',
                          construct=f'{c.name}.{name}', path=c.module.path)
-    yield ctx.ob('SUPPORT.STATE-PER-INSTANCE', True, None, None, f'classes of lab.py / runners scanned, {n} class-level mutable containers',
-                 construct='scan', path='labtech/lab.py')
+    yield ctx.ob('SUPPORT.STATE-PER-INSTANCE', True, None, None, f'classes scanned, {n} class-level mutable containers',
+                 construct='scan', path='labtech/')
 
 
 def _tail_name(e: ast.AST):
